@@ -145,7 +145,8 @@ func (d *TextDecoder) Decode() (*auditlog.Entry, error) {
 				continue
 			}
 			key := strings.TrimSpace(kv[0])
-			val := strings.TrimSpace(kv[1])
+			// Leading and trailing whitespace is part of the recorded value.
+			val := kv[1]
 
 			switch key {
 			case "Op":
@@ -159,7 +160,7 @@ func (d *TextDecoder) Decode() (*auditlog.Entry, error) {
 			case "UploadID":
 				dls.Resource.UploadID = unescape(val)
 			case "Part":
-				p, _ := strconv.Atoi(val)
+				p, _ := strconv.Atoi(strings.TrimSpace(val))
 				dls.Resource.PartNumber = int32(p)
 			case "SourceBucket":
 				dls.Resource.SourceBucket = unescape(val)
@@ -176,7 +177,7 @@ func (d *TextDecoder) Decode() (*auditlog.Entry, error) {
 			case "ClientIP":
 				dls.Request.ClientIP = unescape(val)
 			case "StatusCode":
-				s, _ := strconv.Atoi(val)
+				s, _ := strconv.Atoi(strings.TrimSpace(val))
 				dls.Outcome.StatusCode = int32(s)
 			case "Outcome":
 				dls.Outcome.Outcome = auditlog.OutcomeType(unescape(val))
@@ -185,7 +186,7 @@ func (d *TextDecoder) Decode() (*auditlog.Entry, error) {
 			case "Error":
 				dls.Outcome.Error = unescape(val)
 			case "DurationMs":
-				duration, _ := strconv.ParseInt(val, 10, 64)
+				duration, _ := strconv.ParseInt(strings.TrimSpace(val), 10, 64)
 				dls.Outcome.DurationMs = duration
 			}
 		}
